@@ -556,7 +556,7 @@ def model_runs(jobs):
         os.replace(tmp, path)
         return r
 
-    with ThreadPoolExecutor(max_workers=min(6, len(jobs))) as ex:
+    with ThreadPoolExecutor(max_workers=min(9, len(jobs))) as ex:
         return list(ex.map(one, jobs))
 
 
@@ -564,9 +564,10 @@ DEVIATIONS = [("Memo", "HistoryIndependent"), ("MemoSound", "MemoSound"), ("Sort
               ("Ctx", "ContextFresh"), ("CtxHist", "HistoryIndependent"), ("Rebind", "TemplateUnchanged"), ("RebindHist", "HistoryIndependent")]
 
 EXHAUSTIVE = {
-    "quick": [("pairs", "cfg/Process_quick_pairs.cfg", {}), ("core3", "cfg/Process_quick_core.cfg", {}), ("sweep", "cfg/Process_sweep.cfg", {})],
+    "quick": [("pairs", "cfg/Process_quick_pairs.cfg", {}), ("core3", "cfg/Process_quick_core.cfg", {}), ("sweep", "cfg/Process_sweep.cfg", {}),
+              ("impl3", "cfg/Process_quick_impl.cfg", {})],
     "thorough": [("full3", "cfg/Process_thorough_full.cfg", dict(workers=6)), ("core4", "cfg/Process_thorough_core.cfg", dict(workers=6)),
-                 ("sweep2", "cfg/Process_thorough_sweep.cfg", dict(workers=4)),
+                 ("sweep2", "cfg/Process_thorough_sweep.cfg", dict(workers=4)), ("impl5", "cfg/Process_thorough_impl.cfg", {}),
                  ("sim8", "cfg/Process_sim.cfg", dict(simulate="num=400", depth=150))],     # + seed, from VERIF_SEED
 }
 
@@ -661,7 +662,8 @@ def run(tier: str) -> int:
     rnd = random.Random(seed())
     # ---- model checking -----------------------------------------------------------------------------------------------
     runs = [(MODULE, cfg, dict(dict(workers=1, timeout=3000), **kw, **({"seed": seed() + 1} if "simulate" in kw else {}))) for _, cfg, kw in EXHAUSTIVE[tier]]
-    devs = [(MODULE, f"cfg/Process_dev_{d}.cfg", dict(workers=1, timeout=600, expect_violation=True)) for d, _ in DEVIATIONS]
+    deviations = [x for x in DEVIATIONS if tier == "thorough" or x[0] in ("Memo", "Sort", "Node", "Ctx", "Rebind")]
+    devs = [(MODULE, f"cfg/Process_dev_{d}.cfg", dict(workers=1, timeout=600, expect_violation=True)) for d, _ in deviations]
     import time
     t0 = time.time()
     results = model_runs(runs + devs)
@@ -684,11 +686,11 @@ def run(tier: str) -> int:
         if not hs:
             raise MachineryError(f"{cfg}: no history emitted (vacuous)")
         histories += [(fam, x) for x in hs]
-    for (d, inv), r in zip(DEVIATIONS, results[len(runs):]):
+    for (d, inv), r in zip(deviations, results[len(runs):]):
         ck.tlc("deviation_" + d, r)
         if r.violated != inv:
             raise MachineryError(f"deviation {d}: TLC was expected to refute {inv}, got {r.violated!r}")
-    ck.cov["deviations_refuted"] = {d: inv for d, inv in DEVIATIONS}
+    ck.cov["deviations_refuted"] = {d: inv for d, inv in deviations}
     _POOLS.update(pools)
 
     # ---- replay ----------------------------------------------------------------------------------------------------------
@@ -700,7 +702,7 @@ def run(tier: str) -> int:
             continue
         seen.add(key)
         pool = pools[fam]
-        if hrec["res"] != [pool["jobs"][j - 1]["pure"] for j in hrec["jobs"]]:
+        if hrec["res"] and hrec["res"] != [pool["jobs"][j - 1]["pure"] for j in hrec["jobs"]]:
             raise MachineryError("emitted history does not carry F(job) although HistoryIndependent held")
         n = len(hrec["jobs"])
         if n <= 2 and tier == "quick" or n <= 1:
@@ -716,7 +718,7 @@ def run(tier: str) -> int:
     # back to back by 16 worker processes (their concatenation is one long history, which must not matter either)
     def process_wide(conf):
         return any("datekey" in c for cs in conf for c in cs)
-    iso = [i for i, it in enumerate(items) if process_wide(it[3]) and len(it[1]) <= 2 and set(it[2]) == ({"sync"} if tier == "quick" else {"async"})]
+    iso = [i for i, it in enumerate(items) if process_wide(it[3]) and (len(it[1]) <= 2 and set(it[2]) == {"sync"} if tier == "quick" else len(it[1]) <= 4)]
     ck.cov["histories_meeting_in_process_wide_state"] = len(iso)
     if len(iso) > (24 if tier == "quick" else 400):
         iso = sorted(rnd.sample(iso, 24 if tier == "quick" else 400))
@@ -773,7 +775,7 @@ def run(tier: str) -> int:
         bad = [pos for pos, (ji, how, rec) in enumerate(zip(jobs, hows, recs))
                if not same_outcome(rec["outcome"], ref[fam][ji - 1][0 if how == "sync" else 1]["rec"]["outcome"])
                or rec.get("data_changed") or rec.get("template_changed") or rec.get("str_changed")]
-        if bad and style == "batched" and again < 40:
+        if bad and style == "batched" and again < 6:
             # attribute: does the history alone reproduce it, or did an earlier history of the same worker leave the state behind?
             again += 1
             recs2, _ = in_child(run_history, pool, jobs, hows)
@@ -799,17 +801,27 @@ def run(tier: str) -> int:
     ck.cov["histories"] = {"distinct": len(seen), "replays": len(items),
                            "by_length": {str(n): sum(1 for k in seen if len(k[1]) == n) for n in sorted({len(k[1]) for k in seen})}}
     dev = results[len(runs)]
-    ck.cov["counterexample_MemoKeyedByEquality"] = [ln for ln in dev.out.splitlines() if ln.startswith("/\\ hist =")][-1:] if dev.out else "(memoised)"
+    lines = dev.out.splitlines()
+    starts = [k for k, ln in enumerate(lines) if ln.startswith("/\\ hist =")]
+    if starts:
+        k = starts[-1]
+        blk = [lines[k]]
+        while k + 1 < len(lines) and not lines[k + 1].startswith("/\\ "):
+            k += 1
+            blk.append(lines[k].strip())
+        ck.cov["counterexample_MemoKeyedByEquality"] = " ".join(blk)[:600] + "   (jobs 1, 2 = TD/dU/E0, TD/dP/E0: equal instants, two zones)"
     for fam, hrec in histories[:: max(1, len(histories) // 3)][:3]:
-        ck.sample({"family": fam, "history": [job_name(pools[fam], j) for j in hrec["jobs"]], "specified": hrec["res"],
+        ck.sample({"family": fam, "history": [job_name(pools[fam], j) for j in hrec["jobs"]], "specified": [pools[fam]["jobs"][j - 1]["pure"] for j in hrec["jobs"]],
                    "sources": [source_of(pools[fam]["jobs"][j - 1]["ops"]) for j in hrec["jobs"]]})
-    ck.cov["rule"] = ("Process.tla: pool of %d jobs (10 templates over date / fill / counters / assign+capture / cycle / ifchanged / offset:continue / macros / "
-                      "array filters on shared and nested lists / include+render of a cached partial / inheritance / with / tablerow / case; 8 data objects whose "
-                      "x is one of tU,tP,tD (equal instants, three zones), 1, True, 1.0, Decimal(1) and whose format is a str or an equal Markup; 5 environments: "
-                      "plain, autoescape, re-parsing with a non-caching loader, implicit via liquid.Template kept / re-created) - every history of length %s; "
-                      "sweep family: 22 array-capable filters x 6 data shapes; each history replayed sync, async and mixed in one process, every render "
-                      "compared with the same render alone in a separately started interpreter, data / node tree / str(template) digested before and after"
-                      % (len(pools.get("full", {"jobs": []})["jobs"]), ck.cov["histories"]["by_length"]))
+    ck.cov["rule"] = ("Process.tla: pool `full` of %d jobs = 14 templates (date; ten dates filling the memo; writer and reader of counters / assign+capture / cycle / "
+                      "ifchanged / offset:continue / macros; array filters on a list that is also reachable as h.l; names shadowing data; include+render of a cached "
+                      "partial; inheritance; with / tablerow / case / reversed loops; ternary syntax; a template the caller gets from the loader with its own globals and "
+                      "one that includes it) x 8 data objects (x = equal instants in UTC, +01:00, dateutil UTC; 1, True, 1.0, Decimal(1); format a str or an equal Markup) "
+                      "x 7 environments (plain, autoescape, non-caching loader + re-parsing, liquid.Template() kept / re-created, parse-time flags, other delimiters); "
+                      "sub-pools `core` (13) and `impl` (5); histories by length %s; sweep family: 22 array-capable filters x 6 data shapes (int list, list of hashes, hash, "
+                      "tuple, list with nil, nested lists). Every history is replayed in one process (sync, async, alternating); every render is compared with the same "
+                      "render as the first render of a fresh process, and the data objects, node trees, template globals and str(template) are digested after every render"
+                      % (len(pools.get("full", pools.get("core"))["jobs"]), ck.cov["histories"]["by_length"]))
     ck.assumptions += [
         "the current time is excluded as the statement says: no job uses now/today (so the memoisation of 'now' | date, which keeps the first render's time for as long as the entry lives, is outside the claim)",
         "templates reloaded from changed sources are excluded: loader sources never change during a history",
